@@ -204,7 +204,23 @@ fn one_run(
         }
     }
     let ex = crate::dispatch::execute(&case);
-    stats.observe(&case, &ex.h);
+    if let Some(m) = &ex.multi {
+        stats.executions += 1 + case.multi.as_ref().map(|s| s.machines.len() as u64).unwrap_or(0);
+        stats.simulated_steps += m.stats.steps;
+        stats.shapes.insert(m.stats.schedule_hash);
+        if m.stats.switches > 1 {
+            stats.nontrivial_shapes.insert(m.stats.schedule_hash);
+        }
+        Stats::bump(&mut stats.faults_fired, "poison_line", m.stats.poison);
+        Stats::bump(&mut stats.faults_fired, "machine_create", m.stats.creates);
+        Stats::bump(&mut stats.faults_fired, "machine_drop", m.stats.drops);
+        Stats::bump(&mut stats.faults_fired, "machine_switch", m.stats.switches);
+        Stats::bump(&mut stats.faults_fired, "thread_handoff", m.stats.thread_handoffs);
+        Stats::bump(&mut stats.rare, "switch_inside_rep", m.stats.switch_inside_rep);
+        Stats::bump(&mut stats.rare, "switch_inside_call", m.stats.switch_inside_call);
+    } else {
+        stats.observe(&case, &ex.h);
+    }
     for a in &ex.alts {
         stats.executions += 1;
         stats.simulated_steps += a.n_probes() as u64;
